@@ -8,6 +8,7 @@
 -/
 import CstructModel.Commit
 import Proofs.Lemmas.C18
+import Proofs.Lemmas.C18Aligned
 
 namespace Cstruct.C18
 open Cstruct Cstruct.Commit
@@ -56,11 +57,25 @@ theorem c18_confluence_packed (cfg : Cfg) (batches : List Fields) (r : Fields ×
     Fields.layout cfg false r.1 LState.init = .ok r.2 ∧ r.1 = batches.foldl Fields.append .nil := by
   exact Lemmas.confluence_packed cfg batches .nil [] (some 0) 0 r rfl h
 
+/-- **Confluence (aligned mode):** the same for members of fixed size without bit-fields and power-of-two alignments. -/
+theorem c18_confluence_aligned (cfg : Cfg) (batches : List Fields) (ms : List (Nat × Nat))
+    (hm : Cstruct.C04.members cfg (batches.foldl Fields.append .nil) = some ms) (hp : ∀ m ∈ ms, Cstruct.C04.isPow2 m.2)
+    (r : Fields × Option Nat × Nat × List (Option Nat)) (h : commitAll cfg true .nil [] batches = .ok r) :
+    Fields.layout cfg true r.1 LState.init = .ok r.2 ∧ r.1 = batches.foldl Fields.append .nil := by
+  exact Lemmas.confluence_aligned cfg batches .nil [] _ _ r ms hm hp rfl h
+
 /-! ### Non-vacuity -/
 def cfg0 : Cfg := { endian := .little, ptr := .pint 8 false, ptrAlign := 8, consts := [] }
 def f1 : Fields := .cons "a" false (.sc (.pint 1 false) 1) none .nil
 def f2 : Fields := .cons "b" false (.sc (.pint 4 false) 4) none (.cons "c" false (.sc (.pint 2 false) 2) none .nil)
 example : (commitAll cfg0 true .nil [] [f1, f2]).map (·.2) = .ok (some 12, 4, [some 0, some 4, some 8]) := by decide +kernel
 example : commit cfg0 true (Fields.append f1 f2) [some 0] = Fields.layout cfg0 true (Fields.append f1 f2) LState.init := by decide +kernel
+def f3 : Fields := .cons "d" false (.sc (.pint 8 false) 8) none (.cons "e" false (.sc (.pint 1 false) 1) none .nil)
+example : Cstruct.C04.members cfg0 ([f1, f2, f3].foldl Fields.append .nil) = some [(1, 1), (4, 4), (2, 2), (8, 8), (1, 1)] := by
+  decide +kernel
+example : (commitAll cfg0 true .nil [] [f1, f2, f3]).map (·.2) =
+    .ok (some 32, 8, [some 0, some 4, some 8, some 16, some 24]) := by decide +kernel
+example : (commitAll cfg0 true .nil [] [f1, f2, f3]).map (·.2) =
+    Fields.layout cfg0 true ([f1, f2, f3].foldl Fields.append .nil) LState.init := by decide +kernel
 
 end Cstruct.C18
